@@ -121,6 +121,9 @@ func impliedObjectType(dec *json.Decoder, depth int) (cty.Type, error) {
 		if !ok {
 			return cty.NilType, fmt.Errorf("expected string but found %T", tok)
 		}
+		// Attribute names are normalized strings, so two spellings of one
+		// name are the same property for the duplicate check below.
+		key = cty.NormalizeString(key)
 
 		// Now read the value
 		tok, err = dec.Token()
